@@ -208,8 +208,8 @@ Section MemLevel.
     wf_synced : vs_index E s = match vs_manifest E s with Some mf => mf_docs mf | None => None end
   }.
 
-  (* invariant 2 (histories outside the known class): every stored or pending embedding has
-     the manifest dimension, which is positive and fits u32 *)
+  (* invariant 2: every stored or pending embedding has the manifest dimension, which is
+     positive and fits u32 (empty vectors never get this far: put drops them) *)
   Definition emb_ok (Dm : N) (e : E) : Prop := dim e = Dm /\ 0 < Dm < U32_MOD.
   Definition pend_ok (Dm : N) (p : pend E) : Prop :=
     match p with PPut _ (Some e) => emb_ok Dm e | _ => True end.
@@ -218,9 +218,9 @@ Section MemLevel.
     wf_pend : Forall (pend_ok (mdim s)) (vs_pending E s)
   }.
 
-  (* outside the known class: no embedding of length 0 (and none of 2^32 components or more) *)
+  (* the only restriction on histories: no embedding of 2^32 components or more *)
   Definition op_ok (o : vop) : Prop :=
-    match o with VPut _ (Some e) => 0 < dim e < U32_MOD | _ => True end.
+    match o with VPut _ (Some e) => dim e < U32_MOD | _ => True end.
 
   Lemma emb_ok_0 e : emb_ok 0 e -> False.
   Proof. intros [_ H]. lia. Qed.
@@ -303,7 +303,7 @@ Section MemLevel.
   (* ---- put ---- *)
   Lemma vput_wf0 s fid emb : wf0 s -> wf0 (fst (vput E dim s fid emb)).
   Proof.
-    intros W. unfold vput.
+    intros W. unfold vput, vput_gen.
     destruct (match emb with
               | Some e => if N.eqb (dim e) 0 then None else Some (dim e mod U32_MOD)
               | None => None end) as [d|].
@@ -323,38 +323,43 @@ Section MemLevel.
   Lemma vput_wfd s fid emb :
     wf0 s -> wfd s -> op_ok (VPut fid emb) -> wfd (fst (vput E dim s fid emb)).
   Proof.
-    intros W Wd Hop. unfold vput. destruct emb as [e|].
-    - cbn [op_ok] in Hop.
-      destruct (N.eqb_spec (dim e) 0) as [H0|_]; [lia|].
-      rewrite (N.mod_small (dim e) U32_MOD) by lia.
-      set (s1 := if vs_enabled E s then s else venable E s).
-      assert (W1 : wf0 s1) by (unfold s1; destruct (vs_enabled E s); [exact W | apply venable_wf0; exact W]).
-      assert (Wd1 : wfd s1) by (unfold s1; destruct (vs_enabled E s); [exact Wd | apply venable_wfd; exact Wd]).
-      assert (En1 : vs_enabled E s1 = true)
-        by (unfold s1; destruct (vs_enabled E s) eqn:Een; [exact Een | reflexivity]).
-      rewrite effective_dim_of. clearbody s1.
-      destruct W1 as [He Hs]. destruct s1 as [en mf ix pd dl].
-      apply wfd_elim in Wd1. destruct Wd1 as [Hd Hp]. rewrite mdim_mk.
+    intros W Wd Hop. unfold vput, vput_gen. cbn [negb andb].
+    assert (Hnone : forall x, match x with Some e0 => pend_ok (mdim s) (PPut fid (Some e0)) | None => True end ->
+              wfd (mkVstate (vs_enabled E s) (vs_manifest E s) (vs_index E s)
+                            (vs_pending E s ++ [PPut fid x]) (vs_deleted E s))).
+    { intros x Hx. destruct s as [en mf ix pd dl]. apply wfd_elim in Wd. destruct Wd as [Hd Hp].
       cbn [vs_enabled vs_manifest vs_index vs_pending vs_deleted] in *.
-      destruct mf as [m|]; [|subst en; discriminate]. cbn [mfdim] in *.
-      destruct (N.ltb_spec 0 (mf_dim m)) as [Hpos|Hzero].
-      + (* a dimension is recorded: the embedding must have it *)
-        destruct (N.eqb_spec (mf_dim m) (dim e)) as [Heq|Hne]; cbn [negb fst].
-        * destruct (N.eqb_spec (mf_dim m) 0) as [Hm0|_]; [lia|].
-          apply wfd_intro; cbn [mfdim]; [exact Hd|].
-          apply Forall_app; split; [exact Hp|]. constructor; [|constructor].
-          cbn [pend_ok]. unfold emb_ok. lia.
-        * apply wfd_intro; cbn [mfdim]; assumption.
-      + (* no dimension yet: this embedding fixes it *)
-        assert (Hm : mf_dim m = 0) by lia. cbn [fst]. rewrite Hm in *. rewrite N.eqb_refl.
-        apply wfd_intro; cbn [mfdim mf_dim].
-        * apply docs_ok_0. exact Hd.
-        * apply Forall_app; split; [apply pend_ok_0; exact Hp|]. constructor; [|constructor].
-          cbn [pend_ok]. unfold emb_ok. lia.
-    - cbn [fst]. destruct s as [en mf ix pd dl]. apply wfd_elim in Wd. destruct Wd as [Hd Hp].
-      cbn [vs_enabled vs_manifest vs_index vs_pending vs_deleted].
       apply wfd_intro; [exact Hd|].
-      apply Forall_app; split; [exact Hp|]. constructor; [exact I|constructor].
+      apply Forall_app; split; [exact Hp|]. constructor; [|constructor].
+      destruct x as [e0|]; [exact Hx|exact I]. }
+    destruct emb as [e|]; [|cbn [fst]; apply Hnone; exact I].
+    cbn [op_ok] in Hop.
+    destruct (N.eqb_spec (dim e) 0) as [H0|Hn0]; [cbn [fst]; apply Hnone; exact I|].
+    rewrite (N.mod_small (dim e) U32_MOD) by lia.
+    set (s1 := if vs_enabled E s then s else venable E s).
+    assert (W1 : wf0 s1) by (unfold s1; destruct (vs_enabled E s); [exact W | apply venable_wf0; exact W]).
+    assert (Wd1 : wfd s1) by (unfold s1; destruct (vs_enabled E s); [exact Wd | apply venable_wfd; exact Wd]).
+    assert (En1 : vs_enabled E s1 = true)
+      by (unfold s1; destruct (vs_enabled E s) eqn:Een; [exact Een | reflexivity]).
+    rewrite effective_dim_of. clearbody s1. clear Hnone.
+    destruct W1 as [He Hs]. destruct s1 as [en mf ix pd dl].
+    apply wfd_elim in Wd1. destruct Wd1 as [Hd Hp]. rewrite mdim_mk.
+    cbn [vs_enabled vs_manifest vs_index vs_pending vs_deleted] in *.
+    destruct mf as [m|]; [|subst en; discriminate]. cbn [mfdim] in *.
+    destruct (N.ltb_spec 0 (mf_dim m)) as [Hpos|Hzero].
+    + (* a dimension is recorded: the embedding must have it *)
+      destruct (N.eqb_spec (mf_dim m) (dim e)) as [Heq|Hne]; cbn [negb fst].
+      * destruct (N.eqb_spec (mf_dim m) 0) as [Hm0|_]; [lia|].
+        apply wfd_intro; cbn [mfdim]; [exact Hd|].
+        apply Forall_app; split; [exact Hp|]. constructor; [|constructor].
+        cbn [pend_ok]. unfold emb_ok. lia.
+      * apply wfd_intro; cbn [mfdim]; assumption.
+    + (* no dimension yet: this embedding fixes it *)
+      assert (Hm : mf_dim m = 0) by lia. cbn [fst]. rewrite Hm in *. rewrite N.eqb_refl.
+      apply wfd_intro; cbn [mfdim mf_dim].
+      * apply docs_ok_0. exact Hd.
+      * apply Forall_app; split; [apply pend_ok_0; exact Hp|]. constructor; [|constructor].
+        cbn [pend_ok]. unfold emb_ok. lia.
   Qed.
 
   (* ---- delete ---- *)
@@ -570,7 +575,7 @@ Section MemLevel.
     exists hits. split; [rewrite Hs; exact H1 | exact H3].
   Qed.
 
-  (* outside the known class search_vec never panics *)
+  (* search_vec never panics *)
   Theorem search_vec_no_panic s q limit :
     wf0 s -> wfd s -> dim q < U32_MOD -> forall site, svec (vmem_of s) q limit <> Panic site.
   Proof.
@@ -600,16 +605,13 @@ Section MemLevel.
   Proof. intros H. apply vrun_wfd; [apply vinit_wf0 | apply vinit_wfd | exact H]. Qed.
 
   Lemma op_ok_of_bools ops :
-    existsb (op_puts_empty E dim) ops = false -> forallb (op_dim_fits_u32 E dim) ops = true ->
-    Forall op_ok ops.
+    forallb (op_dim_fits_u32 E dim) ops = true -> Forall op_ok ops.
   Proof.
-    induction ops as [|o r IH]; intros H1 H2; [constructor|].
-    cbn [existsb forallb] in H1, H2.
-    apply orb_false_iff in H1. apply andb_true_iff in H2.
-    destruct H1 as [H1 H1']. destruct H2 as [H2 H2'].
+    induction ops as [|o r IH]; intros H2; [constructor|].
+    cbn [forallb] in H2. apply andb_true_iff in H2. destruct H2 as [H2 H2'].
     constructor; [|apply IH; assumption].
-    destruct o as [|fid [e|]|fid| | |q limit]; cbn [op_ok op_puts_empty op_dim_fits_u32] in *; auto.
-    apply N.eqb_neq in H1. apply N.ltb_lt in H2. lia.
+    destruct o as [|fid [e|]|fid| | |q limit]; cbn [op_ok op_dim_fits_u32] in *; auto.
+    apply N.ltb_lt in H2. exact H2.
   Qed.
 
   Theorem reached_search_exact (okD : D -> Prop)
@@ -638,29 +640,6 @@ Section MemLevel.
     Forall op_ok ops -> dim q < U32_MOD -> forall site, svec (vmem_of (reached ops)) q limit <> Panic site.
   Proof.
     intros Hops. apply search_vec_no_panic; [apply reached_wf0 | apply reached_wfd; exact Hops].
-  Qed.
-
-  (* the same statement with the known classes as one boolean *)
-  Theorem reached_search_outside_known (okDb : D -> bool)
-    (dle_total : forall a b, okDb a = true -> okDb b = true -> dle a b = true \/ dle b a = true)
-    (dle_trans : forall a b c, okDb a = true -> okDb b = true -> okDb c = true ->
-                               dle a b = true -> dle b c = true -> dle a c = true)
-    ops q limit d0 :
-    forallb (op_dim_fits_u32 E dim) ops = true ->
-    In d0 (index_docs (reached ops)) -> dim q = dim (doc_emb d0) ->
-    known_class E D dim dist dle okDb ops q = false ->
-    exists hits,
-      svec (vmem_of (reached ops)) q limit = Ok hits /\
-      exact_nn E D dist dle (fun d => okDb d = true) (index_docs (reached ops)) q limit hits.
-  Proof.
-    intros Hfit Hin Hq Hk. unfold known_class in Hk. apply orb_false_iff in Hk. destruct Hk as [Hk1 Hk2].
-    apply (reached_search_exact (fun d => okDb d = true) dle_total dle_trans ops q limit d0); try assumption.
-    - apply op_ok_of_bools; assumption.
-    - intros d Hd. fold (reached ops) in Hk2.
-      destruct (okDb (dist q (doc_emb d))) eqn:Ek; [reflexivity|].
-      assert (Hex : existsb (fun d => negb (okDb (dist q (doc_emb d)))) (index_docs (reached ops)) = true).
-      { apply existsb_exists. exists d. split; [exact Hd|]. rewrite Ek. reflexivity. }
-      unfold reached in *. congruence.
   Qed.
 
   (* close and reopen: the reopened memory is the committed memory; with nothing pending it
@@ -692,17 +671,133 @@ Section MemLevel.
   End Codec.
 End MemLevel.
 
-(* ---- the f32 instance of the comparison ---- *)
-Lemma f32_le_total a b : f32_okb a = true -> f32_okb b = true -> f32_le a b = true \/ f32_le b a = true.
+(* ---- the f32 instance of the comparison: (is_nan, total_cmp) on bit patterns ---- *)
+Lemma f32_nan_last_le_total a b : f32_nan_last_le a b = true \/ f32_nan_last_le b a = true.
 Proof.
-  destruct a as [x|], b as [y|]; cbn [f32_okb f32_le]; intros Ha Hb; try discriminate.
-  destruct (N.leb_spec x y); [left; reflexivity | right; apply N.leb_le; lia].
+  unfold f32_nan_last_le. destruct (f32_is_nan a), (f32_is_nan b); auto.
+  - destruct (Z.leb_spec (total_key a) (total_key b)); [left; reflexivity|]. right. apply Z.leb_le. lia.
+  - destruct (Z.leb_spec (total_key a) (total_key b)); [left; reflexivity|]. right. apply Z.leb_le. lia.
 Qed.
 
-Lemma f32_le_trans a b c :
-  f32_okb a = true -> f32_okb b = true -> f32_okb c = true ->
-  f32_le a b = true -> f32_le b c = true -> f32_le a c = true.
+Lemma f32_nan_last_le_trans a b c :
+  f32_nan_last_le a b = true -> f32_nan_last_le b c = true -> f32_nan_last_le a c = true.
 Proof.
-  destruct a as [x|], b as [y|], c as [z|]; cbn [f32_okb f32_le]; intros Ha Hb Hc H1 H2; try discriminate.
-  apply N.leb_le in H1. apply N.leb_le in H2. apply N.leb_le. lia.
+  unfold f32_nan_last_le.
+  destruct (f32_is_nan a), (f32_is_nan b), (f32_is_nan c); intros H1 H2; try discriminate; try reflexivity;
+    apply Z.leb_le in H1; apply Z.leb_le in H2; apply Z.leb_le; lia.
 Qed.
+
+Lemma total_key_inj a b : a < U32_MOD -> b < U32_MOD -> total_key a = total_key b -> a = b.
+Proof.
+  unfold total_key, F32_SIGN, U32_MOD. intros Ha Hb H.
+  destruct (N.ltb_spec a 2147483648); destruct (N.ltb_spec b 2147483648); lia.
+Qed.
+
+(* a total ORDER on 32-bit patterns: a tie is bit equality *)
+Lemma f32_nan_last_le_antisym a b :
+  a < U32_MOD -> b < U32_MOD -> f32_nan_last_le a b = true -> f32_nan_last_le b a = true -> a = b.
+Proof.
+  unfold f32_nan_last_le. intros Ha Hb.
+  destruct (f32_is_nan a), (f32_is_nan b); intros H1 H2; try discriminate;
+    apply Z.leb_le in H1; apply Z.leb_le in H2; apply total_key_inj; try assumption; lia.
+Qed.
+
+(* NaN of either sign is above every non-NaN pattern *)
+Lemma f32_nan_last_le_nan_last a b :
+  f32_is_nan a = false -> f32_is_nan b = true ->
+  f32_nan_last_le a b = true /\ f32_nan_last_le b a = false.
+Proof. unfold f32_nan_last_le. intros -> ->. split; reflexivity. Qed.
+
+(* two non-NaN patterns with the sign bit clear (non-negative numbers, +inf): bit order *)
+Lemma f32_nan_last_le_nonneg a b :
+  a < F32_SIGN -> b < F32_SIGN -> f32_is_nan a = false -> f32_is_nan b = false ->
+  f32_nan_last_le a b = N.leb a b.
+Proof.
+  unfold f32_nan_last_le, total_key. intros Ha Hb -> ->.
+  destruct (N.ltb_spec a F32_SIGN); [|lia]. destruct (N.ltb_spec b F32_SIGN); [|lia].
+  destruct (N.leb_spec a b); [apply Z.leb_le; lia | apply Z.leb_gt; lia].
+Qed.
+
+(* numeric reading: for two values that are not negative numbers, "not Greater" means
+   "the second is not strictly closer", NaN of either sign being farthest *)
+Lemma f32_nan_last_le_not_closer a b :
+  f32_not_negative a = true -> f32_not_negative b = true ->
+  f32_nan_last_le a b = true -> f32_closer b a = false.
+Proof.
+  unfold f32_not_negative, f32_sign, f32_closer. intros Ha Hb H.
+  destruct (f32_is_nan b) eqn:Nb; cbn [negb andb]; [reflexivity|].
+  destruct (f32_is_nan a) eqn:Na; cbn [orb].
+  - unfold f32_nan_last_le in H. rewrite Na, Nb in H. discriminate.
+  - rewrite orb_false_r in Ha, Hb. apply negb_true_iff in Ha. apply negb_true_iff in Hb.
+    apply N.leb_gt in Ha. apply N.leb_gt in Hb.
+    rewrite f32_nan_last_le_nonneg in H by assumption. apply N.leb_le in H.
+    apply N.ltb_ge. exact H.
+Qed.
+
+(* ---- plain total_cmp (9a670c1 .. 1932440, historical): a sign-set pattern -- the only
+   reachable one is a NaN -- sorts before every sign-clear one ---- *)
+Lemma f32_total_le_unfixed_sign_first a b :
+  F32_SIGN <= a -> b < F32_SIGN ->
+  f32_total_le_unfixed a b = true /\ f32_total_le_unfixed b a = false.
+Proof.
+  unfold f32_total_le_unfixed, total_key. intros Ha Hb.
+  destruct (N.ltb_spec a F32_SIGN); [lia|]. destruct (N.ltb_spec b F32_SIGN); [|lia].
+  split; [apply Z.leb_le; lia | apply Z.leb_gt; lia].
+Qed.
+
+(* ---- the comparison before 9a670c1 (historical) ---- *)
+Lemma f32_le_unfixed_not_transitive :
+  f32_le_unfixed (Some 5) None = true /\ f32_le_unfixed None (Some 3) = true /\
+  f32_le_unfixed (Some 5) (Some 3) = false.
+Proof. vm_compute. repeat split. Qed.
+
+(* ---- the numeric reading of an answer under the total order ---- *)
+Lemma StronglySorted_impl_in {A} (R R' : A -> A -> Prop) (l : list A) :
+  (forall a b, In a l -> In b l -> R a b -> R' a b) ->
+  StronglySorted R l -> StronglySorted R' l.
+Proof.
+  induction l as [|x l IH]; intros Himp Hs; [constructor|].
+  inversion Hs as [|? ? Hs' Hx]; subst. constructor.
+  - apply IH; [|exact Hs']. intros a b Ha Hb. apply Himp; right; assumption.
+  - apply Forall_forall. intros y Hy. rewrite Forall_forall in Hx.
+    apply Himp; [left; reflexivity | right; exact Hy | apply Hx; exact Hy].
+Qed.
+
+Section F32Reading.
+  Variable E : Type.
+  Variable dist : E -> E -> N.
+
+  (* the hypothesis on the kernel's outputs: no distance from the query to an indexed
+     embedding is a negative number (a square root of a sum of squares is non-negative,
+     +inf or NaN; the real kernel never returns -0 either) *)
+  Definition no_negative_distance (q : E) (docs : list (doc E)) : Prop :=
+    forall d, In d docs -> f32_not_negative (dist q (doc_emb d)) = true.
+
+  (* hits in non-decreasing numeric order with NaN (either sign) last, and no omitted document
+     strictly closer (NaN = farthest) than a returned one *)
+  Definition numeric_nn (docs : list (doc E)) (q : E) (hits : list (hit N)) : Prop :=
+    StronglySorted (fun a b => f32_closer (snd b) (snd a) = false) hits /\
+    exists rest,
+      Permutation (hits ++ rest) (all_hits E N dist q docs) /\
+      forall h o, In h hits -> In o rest -> f32_closer (snd o) (snd h) = false.
+
+  Theorem exact_nn_numeric q docs limit hits :
+    no_negative_distance q docs ->
+    exact_nn E N dist f32_nan_last_le (fun _ => True) docs q limit hits ->
+    numeric_nn docs q hits.
+  Proof.
+    intros Hsc [rest [_ [Hperm [Hsorted [Hcross _]]]]].
+    assert (Hall : forall h, In h (hits ++ rest) -> f32_not_negative (snd h) = true).
+    { intros h Hh. apply (Permutation_in _ Hperm) in Hh. unfold all_hits in Hh.
+      apply in_map_iff in Hh. destruct Hh as [d [<- Hd]]. cbn [snd]. apply Hsc; exact Hd. }
+    split.
+    - apply (StronglySorted_impl_in (fun a b : hit N => f32_nan_last_le (snd a) (snd b) = true)).
+      + intros a b Ha Hb Hab. apply f32_nan_last_le_not_closer; try exact Hab;
+          apply Hall; apply in_or_app; left; assumption.
+      + exact (sorted_app_l (hit_le N f32_nan_last_le) hits rest Hsorted).
+    - exists rest. split; [exact Hperm|]. intros h o Hh Ho.
+      apply f32_nan_last_le_not_closer; [apply Hall, in_or_app; left; exact Hh
+                                        |apply Hall, in_or_app; right; exact Ho
+                                        |apply Hcross; assumption].
+  Qed.
+End F32Reading.
